@@ -302,6 +302,7 @@ func (x *Exec) yieldOp(fr *frame, what string, key interface{}, write bool) {
 		return
 	}
 	th := x.cur
+	th.sinceVisible = 0
 	th.state = what
 	th.opKey, th.opWrite, th.opKnown = key, write, key != nil
 	sc.visible++
@@ -316,6 +317,7 @@ func (x *Exec) yieldOp(fr *frame, what string, key interface{}, write bool) {
 func (x *Exec) block(fr *frame, what string, pred func() bool) {
 	sc := x.schedState
 	th := x.cur
+	th.sinceVisible = 0
 	th.blocked = pred
 	th.state = what
 	if sc == nil {
